@@ -149,6 +149,54 @@ theorem exit_reaches_known (c : Cfg) (s : St) (i : Inst) (hi : s.run = some i) (
     ∃ s', step c s (.kBegin .exiting) = some s' := by
   simp [step, hi, hk]
 
+/-! ## when the operator pauses: cancelled within backoff + one killer period, whoever set the flag
+
+  While paused, no processing cycle escalates (the streams are down: the touch a cycle schedules for
+  its delays produces an event nobody receives). The killer repeats its sweep every `killerPeriod` and
+  spawns `stop_daemon` for EVERY listed daemon (`sweepSpawns`, tied to the AST and to every observed
+  round) — also for one whose OPERATOR_PAUSING was set by `pause_daemons` in a cycle. -/
+
+/-- a round is never more than one period away -/
+theorem next_round_within_period (p t : Tick) (h : p ≤ t) :
+    t ≤ nextRound p t ∧ nextRound p t < t + killerPeriod :=
+  nextRound_bounds p t h
+
+/-- the sweep does not look at the stopper: a daemon that already carries OPERATOR_PAUSING is swept too -/
+theorem sweep_is_unconditional (i : Inst) : sweepSpawns i = true := rfl
+
+/-- From ANY reachable state in which the instance runs and its memory is known — whatever its stopper
+    holds already, in particular OPERATOR_PAUSING set by `pause_daemons` — with the pause toggled at
+    `p ≤ now`: the next round's `stop_daemon` is enabled and its cancellation stage is enabled
+    `backoff` later; after it the task has been cancelled no later than `now + killerPeriod + backoff`
+    (`now` = e.g. the moment the flag was set). -/
+theorem paused_daemon_cancelled_in_time (c : Cfg) (s : St) (i : Inst) (p : Tick) (h : Reach c s)
+    (hi : s.run = some i) (hk : s.known = true) (ht : c.timeout.isSome = true) (hb : 0 ≤ c.b0) (hp : p ≤ s.now) :
+    ∃ s' i' tc, runs c s [.tick (nextRound p s.now - s.now).toNat, .kBegin .pausing, .tick c.b0.toNat,
+                          .kCancel (nextRound p s.now)] = some s' ∧
+      s'.run = some i' ∧ i'.cancelAt = some tc ∧ tc < s.now + killerPeriod + c.b0 ∧
+      Reason.cancelled ∈ i'.reasons := by
+  obtain ⟨hlo, hhi⟩ := nextRound_bounds p s.now hp
+  have hd : ((nextRound p s.now - s.now).toNat : Int) = nextRound p s.now - s.now :=
+    Int.toNat_of_nonneg (by unfold Tick at *; omega)
+  have hr : s.now + ((nextRound p s.now - s.now).toNat : Int) = nextRound p s.now := by
+    rw [hd]; unfold Tick at *; omega
+  obtain ⟨s', i', tc, hrun, hrun', hc, hle, _, hcm⟩ :=
+    resweep_path (reach_inv h) hi hk ht hb (nextRound p s.now - s.now).toNat
+  rw [hr] at hrun hle
+  refine ⟨s', i', tc, hrun, hrun', hc, ?_, hcm⟩
+  generalize c.b0 = bb at *
+  generalize nextRound p s.now = rr at *
+  unfold Tick at *
+  omega
+
+/-- non-vacuity: a daemon spawned and flagged by `pause_daemons` in a cycle at tick 70 (pause toggled
+    at 65), backoff 32, timeout 64: the round at 129 starts `stop_daemon`, which cancels at 161 -/
+example : ∃ s i, runs { backoff := some 32, timeout := some 64, polling := 3840 } (St.init 70)
+      [.cycle { matching := true, marked := false, paused := true, deleted := false, ex1 := Ex.never, ex2 := Ex.never },
+       .tick 59, .kBegin .pausing, .tick 32, .kCancel 129] = some s ∧ s.run = some i ∧
+    i.when = some 70 ∧ i.cancelAt = some 161 ∧ nextRound 65 70 = 129 :=
+  ⟨_, _, rfl, rfl, by decide, by decide, by decide⟩
+
 /-! ## …except when the object disappears without the deletion mark (finding F10)
 
   FULL CLAUSE (false of the code): "an instance is asked to stop when the object disappears".
